@@ -457,3 +457,17 @@ CHECKS["C09"]["status"] = CHECKS["C09"]["status"].replace("adoption proved over 
     "adoption proved over the model for every Show-free view (NoHydrate islands included: rendered by the server without keys and markers, skipped by the client, left literally identical by hydration — keylessEls; Show inside an island is allowed), every store:")
 CHECKS["C09"]["manifest_note"] = CHECKS["C09"]["manifest_note"].replace("Views with NoHydrate/NoSsr/Keyed are not in the view language yet.",
     "NoHydrate is in the view language (model, theorems, generator; it exposed and now guards defect D14); NoSsr and Keyed/Indexed under hydration are not.")
+
+# --- E9 "assr": blocking and streaming server rendering with suspense (C12 async clauses, C13 SSR clauses)
+_assr_rule = ("async SSR: 10 hand-written families (boundaries nested to depth 3, siblings, boundaries inside dynamic regions, async components in and outside boundaries, one resource read under "
+              "several boundaries) x EVERY completion order of their tasks/resources, each also with the last completion missing (blocking must hang, the stream must stay open); 700 (quick) / "
+              "20000 (thorough) random views (depth <= 4, <= 9 nodes: elements, text, Suspense, async components, input-less dynamic regions, resources) x the three modes with a shuffled schedule "
+              "(every 6th incomplete). Real tokio current-thread LocalSet; every await point is a oneshot the harness completes; after each event the executor is drained and the harness records "
+              "when render_to_string_await_suspense returns and which chunks render_to_string_stream yields. Every case is rendered twice (with another render in between). "
+              "distinct = distinct request line; non-trivial = at least one event")
+CHECKS["C12"]["engines"] = CHECKS["C12"]["engines"] + [{"harness": "native", "engine": "assr"}]
+CHECKS["C12"]["classes"] = CHECKS["C12"]["classes"] + ["ssr-keys", "ssr-determinism", "ssr-panic"]
+CHECKS["C12"]["rule"] = CHECKS["C12"]["rule"] + " || " + _assr_rule
+CHECKS["C13"]["engines"] = CHECKS["C13"]["engines"] + [{"harness": "native", "engine": "assr"}]
+CHECKS["C13"]["classes"] = CHECKS["C13"]["classes"] + ["stream-parent-first", "stream-once", "stream-equals-blocking", "stream-apply", "ssr-panic"]
+CHECKS["C13"]["rule"] = CHECKS["C13"]["rule"] + " || " + _assr_rule
